@@ -1,6 +1,6 @@
 SPECIFICATION Spec
 CONSTANTS
-  Templates = {"n", "u", "t", "L2", "L3", "N21", "N23"}
+  Templates = {"n", "u", "t", "L2", "Lf", "L3", "N21", "N23"}
   MaxArgs = 3
   FirstList = FALSE
 INVARIANT InvLen
